@@ -549,12 +549,30 @@ func (s *Stream) handleDataFrame(f Frame) error {
 	}
 
 	if f.Opcode().IsText() && s.validateUTF8 {
-		if !utf8.Valid(f.Payload()) {
+		if !validUTF8(f.Payload(), f.IsFIN()) {
 			return ErrInvalidUTF8
 		}
 	}
 
 	return nil
+}
+
+// validUTF8 reports whether b is valid UTF-8. A fragment that is not the last one of its message may end in the middle
+// of a character (the peer may split a message anywhere, RFC 6455 5.4): its last bytes may then be the beginning of a
+// multi-byte sequence.
+func validUTF8(b []byte, final bool) bool {
+	if final {
+		return utf8.Valid(b)
+	}
+	for len(b) > 0 {
+		r, size := utf8.DecodeRune(b)
+		if r == utf8.RuneError && size == 1 {
+			// Either an invalid byte or a sequence cut short by the end of the fragment.
+			return !utf8.FullRune(b)
+		}
+		b = b[size:]
+	}
+	return true
 }
 
 // Write writes the supplied buffer as a single message with the given type to the underlying stream.
